@@ -246,6 +246,9 @@ func (v *Verifier) verifyCase(fi *FuncInfo, con *Contract, rep *FuncReport, case
 					where = " at " + v.prog.fset.Position(u.pos).String()
 				}
 				rep.Rejected = u.msg + where
+				if v.curClause != "" {
+					rep.Rejected += " [while evaluating: " + truncate(v.curClause, 120) + "]"
+				}
 				return
 			}
 			stack := strings.Split(string(debug.Stack()), "\n")
@@ -357,6 +360,12 @@ func (v *Verifier) verifyCase(fi *FuncInfo, con *Contract, rep *FuncReport, case
 	rep.Notes = appendUniq(rep.Notes, v.notes)
 	// vacuity: the precondition (with the case condition) must be satisfiable
 	vac := v.checkVacuity(rep.Name+caseTag, entryPC)
+	if caseIdx >= 0 && caseIdx == len(con.Split) && strings.HasPrefix(vac, "VACUOUS") {
+		vac = "split is exhaustive (the remaining case is infeasible)"
+		if rep.Vacuity != "" {
+			vac = rep.Vacuity
+		}
+	}
 	if rep.Vacuity == "" || strings.HasPrefix(vac, "VACUOUS") {
 		rep.Vacuity = vac
 	} else if !strings.HasPrefix(rep.Vacuity, "VACUOUS") && strings.Contains(vac, "unknown") {
@@ -615,6 +624,9 @@ func (v *Verifier) heapFrameFormula(st *State, k string) *Term {
 		for _, t := range targets {
 			for _, gk := range t.Ghost {
 				if gk == k {
+					if t.Ref == nil {
+						return nil // wildcard: every entry may change
+					}
 					cov = append(cov, c.Eq(r, t.Ref))
 				}
 			}
@@ -668,7 +680,7 @@ func (v *Verifier) checkVacuity(name string, entryPC []*Term) string {
 		return "precondition trivially satisfiable"
 	}
 	script := v.eng.C.Script(entryPC, nil, "", false)
-	res := Solve(script, "", workDir(), sanitize(name)+".vacuity", 5, []string{"z3-5.1", "cvc5"})
+	res := Solve(script, "", "", workDir(), sanitize(name)+".vacuity", 5, []string{"z3-5.1", "cvc5"})
 	switch res.Status {
 	case "sat":
 		return "precondition satisfiable (" + res.Solver + ")"
@@ -744,6 +756,21 @@ func dischargeAll(reps []*FuncReport, timeoutS int, par int, keepDir string) {
 		if hasQ && !containsQuant(j.o.Goal) {
 			relaxedScript = j.o.ctx.Script(rel, j.o.Goal, "", true)
 		}
+		// third variant: the relaxed query generalised to pure QF_BV (read hoisting)
+		bvScript := ""
+		if !containsQuant(j.o.Goal) && j.o.Goal.Sort == BoolSort {
+			all := append(append([]*Term{}, rel...), j.o.Goal)
+			abs := j.o.ctx.abstractToBV(all)
+			if g := abs[len(abs)-1]; g != nil {
+				var as []*Term
+				for _, a := range abs[:len(abs)-1] {
+					if a != nil {
+						as = append(as, a)
+					}
+				}
+				bvScript = j.o.ctx.Script(as, g, "", false)
+			}
+		}
 		script := j.o.ctx.Script(assume, j.o.Goal, "", true)
 		j.o.Script = script
 		base := sanitize(fmt.Sprintf("%s.p%d", j.o.Name, j.o.Path))
@@ -755,7 +782,7 @@ func dischargeAll(reps []*FuncReport, timeoutS int, par int, keepDir string) {
 		go func() {
 			defer wg.Done()
 			defer func() { <-sem }()
-			res := Solve(script, relaxedScript, workDir(), base, to, j.o.Solvers)
+			res := Solve(script, relaxedScript, bvScript, workDir(), base, to, j.o.Solvers)
 			j.o.Result = &res
 			j.r.Solver = res.Solver
 			j.r.Seconds = res.Seconds
